@@ -8,23 +8,23 @@ import registry
 LEVEL_TEXT = {
  "C01": "Bounded model checking of the two deterministic links of encrypt/decrypt on the real code: scaling_variant::multiply_add/sub_plain adds exactly round(q*m/t) for every m < t (batching t, t = 2^k, non-ascending primes, short plaintexts; at a 60-bit prime with a 40-bit t in 256-value windows around the 64-bit carry of the numerator), BGV decryption returns the centred phase mod t times the inverse correction factor trimmed to the leading coefficient for EVERY ciphertext (N=2), and (thorough) BFV Decryptor::decrypt returns round(t*phase/q) mod t for EVERY ciphertext and ternary key. The randomised sampling glue and CKKS float encoding are outside (stated). The suite encrypts one random vector per scheme; the solver covers all plaintext values and all ciphertexts inside the bounds.",
  "C02": "Bounded model checking, one inductive step per operation on ARBITRARY ciphertexts (not assumed to be well-formed encryptions): add/sub/negate residue-wise for all size pairs, BGV factor balancing (all 256 factor pairs at t=17), BGV tensor product for sizes (2,2),(3,2) (thorough: (2,3) and squaring) against a reference composed from the same word kernels, RNS polynomial kernels position-wise against arithmetic. Phase identities compose over programs of any length. BFV multiplication over the auxiliary base and relinearisation at the first level are not decided (key switching: see C04's lemma).",
- "C03": "Bounded model checking of the scale bookkeeping (product recorded bit-exactly for CKKS multiply, quotient by the dropped prime for rescale: see C05) and of the slot-wise product; decoded complex error bounds (float FFT) are outside.",
+ "C03": "Bounded model checking of the scale bookkeeping (product recorded bit-exactly for CKKS multiply and square, quotient by the prime dropped AT THE CIPHERTEXT'S OWN LEVEL for rescale below the first level, drop keeps the scale), of the slot-wise tensor product, and of the refusals (resulting scale does not fit the modulus for square/multiply, mismatched scales for add/sub); decoded complex error bounds (float FFT) are outside.",
  "C04": "Bounded model checking of the Galois machinery: GaloisTool::apply = X -> X^g with signs for every odd g (N<=16), the NTT permutation table is the evaluation-point map, step -> element and default key set, NAF; key switching at a lower chain level (phase_out = phase_in + target*s' + small) for every target under a fixed key (thorough: for every key satisfying the RLWE relation); rotation composition for every step at N=16 and for the steps reaching the +-N/2 NAF digits at N=32, with the automorphism stubbed by a recorder.",
  "C05": "Bounded model checking of one level step for every scheme (BFV rounding division against the CRT-composed integer, CKKS drop vs rescale with exact scale quotient, BGV with correction-factor bookkeeping), termination of rescale_to within the chain length (unwinding assertion), and refusals (past the last level, upward, rescale outside CKKS).",
  "C06": "Bounded model checking: the three API forms of add and of mod_switch_to_next agree field-wise even when the destination previously held another ciphertext, read-only operands are unchanged, results are valid; every single-field corruption of an operand (9 kinds) makes add_inplace refuse on every path.",
- "C07": "Bounded model checking: invariant_noise_budget equals the definition evaluated exactly by the harness (centered norm of t*phase mod q, bit counts) for every ciphertext and ternary key at N=2 (incl. zero budget). Fresh-budget bounds and k-fold addition bounds are not decided.",
+ "C07": "Bounded model checking: invariant_noise_budget equals the definition evaluated exactly by the harness (centered norm of t*phase mod q, bit counts) for every ciphertext at N=2 (key 1-X, incl. zero budget), also for a ciphertext below the first level (bit count of its own level's modulus). Fresh-budget bounds and k-fold addition bounds are not decided.",
  "C08": "Engine K (CBMC) for multi-word carry/shift/compare/multiply helpers at full 64-bit limb width with symbolic lengths and multi-word division with remainder (two-word divisor); engine M (MIR->SMT, cvc5/z3) for the Barrett-style kernels at full 64-bit operand width over a concrete modulus family (literals of the real Modulus::new), with native translator validation on every run.",
  "C09": "Engine K: forward NTT = evaluation at psi^(2*bitrev(i)+1) for all inputs (N=2,4; thorough N=8), inverse inverts, lazy forms stay in range and congruent, table equations incl. minimality of the root on the regenerated literals. Engine M: lazy butterfly arithmetic at full width for 31/61-bit moduli.",
  "C10": "Bounded model checking of RNS routines coefficient-wise against integer specifications for EVERY input below the base product: CRT compose/decompose (2 and 3 primes, both orders), fast base conversion (x + alpha*Q, incl. the operand==1 shortcut on tiny bases), rounding division by the last prime (coefficient and NTT form agree), the BGV variant (value preserved mod t; corners q_last = 1 mod t and q_last >> q_i), auxiliary-base sizing of the real RNSTool::new at its corners; thorough: decrypt_scale_and_round = exact rounding, NTT-form divisions agree with the coefficient forms.",
- "C11": "Bounded model checking on the real BatchEncoder (N=4, t=17): index map is the documented permutation, decode(encode(v)) = v for all slot vectors, the Galois elements for steps +-1 and the column swap act as the documented row rotation / row swap.",
+ "C11": "Bounded model checking on the real BatchEncoder (N=4, t=17): index map is the documented permutation, decode(encode(v)) = v for all slot vectors, zero-padding of short inputs into a reused destination, decoding of plaintexts with fewer than N coefficients, the Galois elements for steps +-1 and the column swap act as the documented row rotation / row swap.",
  "C12": "Bounded model checking of the integer entry point: every RNS component holds value mod q_j for every accepted i64 (incl. negatives beyond the prime), refusals; vector/complex paths (float FFT, libm) are not applicable to this technique and not claimed.",
  "C13": "Ground (no symbolic input) solver check that the chains produced by the real HeContext::new for 4 parameter families are doubly linked prefix chains with strictly decreasing indices and constants equal to their definitions. The symbolic error ladder of validate() is not decided.",
  "C14": "Bounded model checking of exact round trips with size accounting: scalars, Vec<u64>, byte-width packing for every limit 0..8, Plaintext, ciphertexts in compact/full/selected-terms formats (byte widths 1-3, three schemes, size 2-3). Empty and single-element 1-d/2-d/3-d containers in both formats; the stream layout of a seed-compressed ciphertext in the selected-terms format. Keys, parameters (Modulus::new is not analysable) and the PRNG expansion of seeds are not decided.",
  "C15": "Bounded model checking with a symbolic writer (1..8 bytes accepted per call, optional failure at any call) and symbolic truncation offsets for the scalar codecs every composite codec is built from, and a whole ciphertext written to a writer that accepts 3 or 8 bytes per call and fails at each call index in turn.",
- "C16": "Bounded model checking of the generator's buffering logic across the refill boundary with the stream as a symbolic array (chunking independence, alignment of word reads, one counter step per refill). Hash quality, freshness of entropy and sampler distributions are outside.",
+ "C16": "Bounded model checking of the generator's buffering logic across the refill boundary with the stream as a symbolic array (chunking independence incl. reads that start on the last buffer byte, alignment of word reads, one counter step per refill), and well-formedness of ternary / centred-binomial / uniform samples for EVERY output of a nondeterministic randomness source (same small signed value in every RNS component, |error| <= 21, uniform below each modulus). Hash quality, freshness of entropy and sampler distributions are outside.",
  "C17": "Sequential histories only: the secret-key-power cache of a shared Decryptor never shrinks and a smaller request after a larger one returns the same plaintext. Kani has no threads: preemptive interleavings are not decided (stated honestly; see DESIGN A.6).",
- "C18": "Bounded model checking of the share-revelation protocol for 3 parties under both delivery orders through the real serializer, refusal to finish when a message is missing; thorough: final decoding of a collectively computed BGV phase.",
- "C19": "Bounded model checking: negacyclic_shift = X^s * p for every shift (N=4, 8), extract_lwe + assemble_lwe preserves coefficient i of the phase for every i and key (thorough, N=4).",
+ "C18": "Bounded model checking of the share-revelation protocol for 3 parties under both delivery orders through the real serializer, refusal to finish when a message is missing, histories with receive-before-send and redelivery (the party broadcasts exactly its own share); thorough: final decoding of a collectively computed BGV phase.",
+ "C19": "Bounded model checking: negacyclic_shift = X^s * p for every shift (N=4, 8), extract_lwe + assemble_lwe preserves coefficient i of the phase in every RNS component with three coefficient moduli (N=2, every key) and for every i at N=4 (thorough).",
 }
 NOTE = {
  "C08": "Trusted: kani-compiler's lowering, CBMC 6.11 + cadical, cvc5 1.0 / z3 5.x, the MIR interpreter (validated against the real functions on random vectors each run), harness-side reference arithmetic. Moduli are a concrete family; symbolic moduli and symbolic x symbolic 64-bit products are outside. Kernels not decided within the per-query cap are listed in the evidence and are outside the claim of that run.",
